@@ -1,11 +1,15 @@
 package main
 
 import (
+	"bytes"
+	"crypto/md5"
 	"fmt"
 	"go/types"
 	"hash/crc32"
 	"math"
 	"os"
+	"path"
+	"path/filepath"
 	"strings"
 
 	"golang.org/x/tools/go/ssa"
@@ -227,6 +231,28 @@ func (e *Engine) intrinsic(st *State, fn *ssa.Function, args []Value, ci ssa.Val
 		e.finish(st, ci, nil, fd)
 		return true
 	}
+	if strings.HasPrefix(name, "strings.") || strings.HasPrefix(name, "path/filepath.") || strings.HasPrefix(name, "path.") {
+		if r, ok := e.nativeStrings(st, name, args); ok {
+			e.finish(st, ci, r, fd)
+			return true
+		}
+	}
+	if name == "internal/bytealg.MakeNoZero" {
+		if n, ok := concreteInt(args[0]); ok && n >= 0 && n < 1<<20 {
+			arr := &Array{E: make([]Value, n)}
+			for i := range arr.E {
+				arr.E[i] = Const(8, 0)
+			}
+			e.finish(st, ci, &Slice{Obj: st.alloc(arr), Len: n, Cap: n}, fd)
+			return true
+		}
+	}
+	if strings.HasPrefix(name, "internal/bytealg.") || name == "strings.Index" || name == "strings.Contains" || name == "strings.HasPrefix" || name == "strings.HasSuffix" {
+		if r, ok := e.bytealg(st, fn.Name(), args); ok {
+			e.finish(st, ci, r, fd)
+			return true
+		}
+	}
 	switch name {
 	case "encoding/json.Marshal":
 		// stub contract: Marshal/Unmarshal round-trip a value exactly.  The "encoding"
@@ -303,14 +329,32 @@ func (e *Engine) intrinsic(st *State, fn *ssa.Function, args []Value, ci ssa.Val
 		e.finish(st, ci, nv, fd)
 		return true
 	case "fmt.Sprintf", "fmt.Sprint":
-		e.finish(st, ci, "<fmt>", fd)
+		e.finish(st, ci, e.nativeFormat(st, short, args), fd)
 		return true
-	case "fmt.Errorf", "errors.New", "github.com/cockroachdb/errors.New", "github.com/cockroachdb/errors.Newf":
+	case "fmt.Errorf", "errors.New", "github.com/cockroachdb/errors.New", "github.com/cockroachdb/errors.Newf", "github.com/cockroachdb/errors.Errorf":
 		msg := "<err>"
-		if s, ok := args[0].(string); ok {
+		if short == "Errorf" || short == "Newf" {
+			msg = e.nativeFormat(st, "Sprintf", args)
+		} else if s, ok := args[0].(string); ok {
 			msg = s
 		}
 		e.finish(st, ci, newErr(msg, nil), fd)
+		return true
+	case "regexp.MustCompile":
+		// regular expressions are compiled in package initialisers only; none of the
+		// encoded code paths matches against them (a use would dereference nil and
+		// show up as a runtime panic)
+		e.finish(st, ci, (*Ptr)(nil), fd)
+		return true
+	case "github.com/cockroachdb/errors.WithStack":
+		e.finish(st, ci, args[0], fd)
+		return true
+	case "github.com/cockroachdb/errors.Wrapf", "github.com/cockroachdb/errors.Wrap":
+		if w, _ := args[0].(*Iface); w == nil {
+			e.finish(st, ci, (*Iface)(nil), fd)
+		} else {
+			e.finish(st, ci, newErr("<wrapped>", w), fd)
+		}
 		return true
 	case "github.com/cockroachdb/errors.Is", "errors.Is":
 		a, _ := args[0].(*Iface)
@@ -370,6 +414,28 @@ func (e *Engine) intrinsic(st *State, fn *ssa.Function, args []Value, ci ssa.Val
 			}
 		}
 		panic("sync.Pool.New not found")
+	case "crypto/md5.New":
+		dt := fn.Pkg.Type("digest").Type()
+		id := st.alloc(zero(dt))
+		st.hashBuf[id] = nil
+		e.finish(st, ci, &Iface{T: types.NewPointer(dt), V: &Ptr{Obj: id}}, fd)
+		return true
+	case "(*crypto/md5.digest).Reset":
+		st.hashBuf[args[0].(*Ptr).Obj] = nil
+		e.finish(st, ci, nil, fd)
+		return true
+	case "(*crypto/md5.digest).Write":
+		id := args[0].(*Ptr).Obj
+		sl := args[1].(*Slice)
+		st.hashBuf[id] = append(append([]Value(nil), st.hashBuf[id]...), e.sliceElems(st, sl)...)
+		e.finish(st, ci, &Tuple{V: []Value{Const(64, uint64(sl.Len)), (*Iface)(nil)}}, fd)
+		return true
+	case "(*crypto/md5.digest).Sum":
+		sum := e.md5Model(st.hashBuf[args[0].(*Ptr).Obj])
+		in := args[1].(*Slice)
+		arr := &Array{E: append(append([]Value(nil), e.sliceElems(st, in)...), sum...)}
+		e.finish(st, ci, &Slice{Obj: st.alloc(arr), Len: len(arr.E), Cap: len(arr.E)}, fd)
+		return true
 	case "hash/crc32.NewIEEE", "hash/crc32.New":
 		dt := fn.Pkg.Type("digest").Type()
 		id := st.alloc(zero(dt))
@@ -631,4 +697,319 @@ func (e *Engine) deepCopy(st *State, v Value) Value {
 		return &Slice{Obj: st.alloc(arr), Len: x.Len, Cap: x.Len}
 	}
 	return v
+}
+
+// concreteBytes returns the bytes of a string or a []byte value when all of
+// them are concrete.
+func (e *Engine) concreteBytes(st *State, v Value) ([]byte, bool) {
+	switch x := v.(type) {
+	case string:
+		return []byte(x), true
+	case *Slice:
+		el := e.sliceElems(st, x)
+		out := make([]byte, len(el))
+		for i, b := range el {
+			t, ok := b.(*Term)
+			if !ok || !t.IsConst() {
+				return nil, false
+			}
+			out[i] = byte(t.C)
+		}
+		return out, true
+	}
+	return nil, false
+}
+
+// bytealg evaluates the assembly-backed string/byte helpers natively on
+// concrete arguments.
+func (e *Engine) bytealg(st *State, short string, args []Value) (Value, bool) {
+	var bs [][]byte
+	var ints []int64
+	for _, a := range args {
+		if t, ok := a.(*Term); ok {
+			if !t.IsConst() {
+				return nil, false
+			}
+			ints = append(ints, int64(t.C))
+			continue
+		}
+		b, ok := e.concreteBytes(st, a)
+		if !ok {
+			return nil, false
+		}
+		bs = append(bs, b)
+	}
+	i64 := func(v int) Value { return Const(64, uint64(int64(v))) }
+	switch short {
+	case "IndexByteString", "IndexByte":
+		if len(bs) == 1 && len(ints) == 1 {
+			return i64(bytes.IndexByte(bs[0], byte(ints[0]))), true
+		}
+	case "CountString", "Count":
+		if len(bs) == 1 && len(ints) == 1 {
+			return i64(bytes.Count(bs[0], []byte{byte(ints[0])})), true
+		}
+	case "IndexString", "Index":
+		if len(bs) == 2 {
+			return i64(bytes.Index(bs[0], bs[1])), true
+		}
+	case "Contains":
+		if len(bs) == 2 {
+			return Bool(bytes.Contains(bs[0], bs[1])), true
+		}
+	case "HasPrefix":
+		if len(bs) == 2 {
+			return Bool(bytes.HasPrefix(bs[0], bs[1])), true
+		}
+	case "HasSuffix":
+		if len(bs) == 2 {
+			return Bool(bytes.HasSuffix(bs[0], bs[1])), true
+		}
+	case "Equal":
+		if len(bs) == 2 {
+			return Bool(bytes.Equal(bs[0], bs[1])), true
+		}
+	case "Compare":
+		if len(bs) == 2 {
+			return i64(bytes.Compare(bs[0], bs[1])), true
+		}
+	}
+	return nil, false
+}
+
+// nativeFormat runs fmt.Sprintf / fmt.Sprint natively when every argument is
+// concrete; otherwise the result is the opaque string "<fmt>" (only ever used
+// for log and panic messages in the code under test).
+func (e *Engine) nativeFormat(st *State, which string, args []Value) string {
+	var format string
+	var rest Value
+	if which == "Sprintf" {
+		f, ok := args[0].(string)
+		if !ok {
+			return "<fmt>"
+		}
+		format = f
+		rest = args[1]
+	} else {
+		rest = args[0]
+	}
+	var goArgs []interface{}
+	if sl, ok := rest.(*Slice); ok && sl != nil && sl.Len > 0 {
+		for _, a := range e.sliceElems(st, sl) {
+			iv, _ := a.(*Iface)
+			if iv == nil {
+				goArgs = append(goArgs, nil)
+				continue
+			}
+			switch x := iv.V.(type) {
+			case string:
+				goArgs = append(goArgs, x)
+			case *Term:
+				if !x.IsConst() {
+					return "<fmt>"
+				}
+				switch {
+				case x.W == 0:
+					goArgs = append(goArgs, x.C == 1)
+				case isSigned(iv.T):
+					goArgs = append(goArgs, sext64(x.C, x.W))
+				default:
+					goArgs = append(goArgs, x.C)
+				}
+			case *ErrObj:
+				goArgs = append(goArgs, fmt.Errorf("%s", x.Msg))
+			case float64:
+				goArgs = append(goArgs, x)
+			default:
+				return "<fmt>"
+			}
+		}
+	}
+	if which == "Sprintf" {
+		return fmt.Sprintf(format, goArgs...)
+	}
+	return fmt.Sprint(goArgs...)
+}
+
+// nativeStrings evaluates pure string / path helpers natively (strings are
+// always concrete in the engine).
+func (e *Engine) nativeStrings(st *State, name string, args []Value) (Value, bool) {
+	str := func(i int) (string, bool) {
+		if i >= len(args) {
+			return "", false
+		}
+		s, ok := args[i].(string)
+		return s, ok
+	}
+	strs := func(i int) ([]string, bool) {
+		if i >= len(args) {
+			return nil, false
+		}
+		sl, ok := args[i].(*Slice)
+		if !ok {
+			return nil, false
+		}
+		var out []string
+		for _, v := range e.sliceElems(st, sl) {
+			s, ok := v.(string)
+			if !ok {
+				return nil, false
+			}
+			out = append(out, s)
+		}
+		return out, true
+	}
+	mkSlice := func(ss []string) Value {
+		arr := &Array{E: make([]Value, len(ss))}
+		for i, s := range ss {
+			arr.E[i] = s
+		}
+		return &Slice{Obj: st.alloc(arr), Len: len(ss), Cap: len(ss)}
+	}
+	a0, ok0 := str(0)
+	a1, ok1 := str(1)
+	switch name {
+	case "strings.Join":
+		if l, ok := strs(0); ok && ok1 {
+			return strings.Join(l, a1), true
+		}
+		if sl, ok := args[0].(*Slice); ok && sl.Len == 0 && ok1 {
+			return "", true
+		}
+	case "strings.Split":
+		if ok0 && ok1 {
+			return mkSlice(strings.Split(a0, a1)), true
+		}
+	case "strings.Fields":
+		if ok0 {
+			return mkSlice(strings.Fields(a0)), true
+		}
+	case "strings.ToLower":
+		if ok0 {
+			return strings.ToLower(a0), true
+		}
+	case "strings.ToUpper":
+		if ok0 {
+			return strings.ToUpper(a0), true
+		}
+	case "strings.TrimSuffix":
+		if ok0 && ok1 {
+			return strings.TrimSuffix(a0, a1), true
+		}
+	case "strings.TrimPrefix":
+		if ok0 && ok1 {
+			return strings.TrimPrefix(a0, a1), true
+		}
+	case "strings.Trim":
+		if ok0 && ok1 {
+			return strings.Trim(a0, a1), true
+		}
+	case "strings.TrimRight":
+		if ok0 && ok1 {
+			return strings.TrimRight(a0, a1), true
+		}
+	case "strings.TrimLeft":
+		if ok0 && ok1 {
+			return strings.TrimLeft(a0, a1), true
+		}
+	case "strings.ReplaceAll":
+		if a2, ok2 := str(2); ok0 && ok1 && ok2 {
+			return strings.ReplaceAll(a0, a1, a2), true
+		}
+	case "strings.LastIndex":
+		if ok0 && ok1 {
+			return Const(64, uint64(int64(strings.LastIndex(a0, a1)))), true
+		}
+	case "strings.Count":
+		if ok0 && ok1 {
+			return Const(64, uint64(int64(strings.Count(a0, a1)))), true
+		}
+	case "strings.Repeat":
+		if n, ok := concreteInt(args[1]); ok && ok0 && n >= 0 && n < 1<<16 {
+			return strings.Repeat(a0, n), true
+		}
+	case "path/filepath.Join":
+		if l, ok := strs(0); ok {
+			return filepath.Join(l...), true
+		}
+	case "path.Join":
+		if l, ok := strs(0); ok {
+			return path.Join(l...), true
+		}
+	case "path/filepath.Clean":
+		if ok0 {
+			return filepath.Clean(a0), true
+		}
+	case "path.Clean":
+		if ok0 {
+			return path.Clean(a0), true
+		}
+	case "path/filepath.Base":
+		if ok0 {
+			return filepath.Base(a0), true
+		}
+	case "path.Base":
+		if ok0 {
+			return path.Base(a0), true
+		}
+	case "path/filepath.Dir":
+		if ok0 {
+			return filepath.Dir(a0), true
+		}
+	case "path.Dir":
+		if ok0 {
+			return path.Dir(a0), true
+		}
+	case "path/filepath.Ext":
+		if ok0 {
+			return filepath.Ext(a0), true
+		}
+	case "path/filepath.IsAbs":
+		if ok0 {
+			return Bool(filepath.IsAbs(a0)), true
+		}
+	case "path/filepath.Rel":
+		if ok0 && ok1 {
+			r, err := filepath.Rel(a0, a1)
+			var ev Value = (*Iface)(nil)
+			if err != nil {
+				ev = newErr(err.Error(), nil)
+			}
+			return &Tuple{V: []Value{r, ev}}, true
+		}
+	}
+	return nil, false
+}
+
+// md5Model: native MD5 for concrete input, otherwise sixteen bytes cut from two
+// uninterpreted 64-bit functions of the input (MD5 is only used for diagnostic
+// hashes and flag-file self checks).
+func (e *Engine) md5Model(bs []Value) []Value {
+	raw := make([]byte, len(bs))
+	ts := make([]*Term, len(bs))
+	allc := true
+	for i, b := range bs {
+		t := b.(*Term)
+		ts[i] = t
+		if t.IsConst() {
+			raw[i] = byte(t.C)
+		} else {
+			allc = false
+		}
+	}
+	out := make([]Value, 16)
+	if allc {
+		s := md5.Sum(raw)
+		for i := range out {
+			out[i] = Const(8, uint64(s[i]))
+		}
+		return out
+	}
+	a := UF(fmt.Sprintf("md5a_%d", len(ts)), 64, ts...)
+	b := UF(fmt.Sprintf("md5b_%d", len(ts)), 64, ts...)
+	for i := 0; i < 8; i++ {
+		out[i] = Extract(8*i+7, 8*i, a)
+		out[8+i] = Extract(8*i+7, 8*i, b)
+	}
+	return out
 }
